@@ -107,3 +107,22 @@ pub fn doc_of_source(cfg: Config, src: &str) -> String {
     }
     dumped
 }
+
+pub fn doc_and_render(cfg: Config, src: &str) -> String {
+    let source = Source::detached(src);
+    let width = cfg.max_width;
+    let res = crate::catch(std::panic::AssertUnwindSafe(|| {
+        let mut s = String::new();
+        let r = Typstyle::new(cfg).format_source_inspect(&source, |d| {
+            s = doc_of_arena(d);
+            s.push('\t');
+            s.push_str(&hex(&d.pretty(width).to_string()));
+        });
+        (r.is_ok(), s)
+    }));
+    match res {
+        Ok((true, s)) => s,
+        Ok((false, _)) => "err".to_string(),
+        Err(_) => "panic".to_string(),
+    }
+}
